@@ -84,8 +84,8 @@ def run(pid, tier, seed, replay):
     for m in fam:
         m["evs"] = m["evs"] + [m["classes"][0]["states"][0]["id"], "send"]
     consts = {"NI": 1, "MaxCalls": 3, "MaxFails": 0, "MaxActs": 0}
-    ec.mc_run(chk, fam, consts, required=("MCCall", "MCSelect", "MCUnwind", "MCAssign"), label="entry-point family")
-    hs = ec.hist_scenarios(chk, fam, consts, limit=800 if quick else 10000)
+    _cov, hs = ec.mc_run(chk, fam, consts, required=("MCCall", "MCSelect", "MCUnwind", "MCAssign"),
+                         label="entry-point family", hist_limit=800 if quick else 10000)
     styles = ["send", "event", "events_item", "allowed_item", "bound"]
     for scn in hs:      # the specification's behaviours, each call in a randomly chosen calling style
         declared = set(scn["classes"][0]["evlist"])
